@@ -90,6 +90,11 @@ func (e *SpecEnv) resolveType(te ast.Expr) types.Type {
 		}
 	case *ast.InterfaceType:
 		return types.NewInterfaceType(nil, nil)
+	case *ast.IndexExpr:
+		// seq[T]: a mathematical sequence (SMT array) of T, e.g. the contents of a slice
+		if id, ok := t.X.(*ast.Ident); ok && id.Name == "seq" {
+			return types.NewArray(e.resolveType(t.Index), 0)
+		}
 	}
 	e.stale("unsupported type expression %s", exprString(te))
 	return nil
@@ -542,7 +547,7 @@ func (e *SpecEnv) call(n *ast.CallExpr) Term {
 			return Term{S: app("strlen", a.S), Sort: "Int", T: intT}
 		}
 		if a.T != nil {
-			if arr, ok := a.T.Underlying().(*types.Array); ok {
+			if arr, ok := a.T.Underlying().(*types.Array); ok && arr.Len() > 0 {
 				return mkInt(arr.Len())
 			}
 		}
@@ -565,6 +570,25 @@ func (e *SpecEnv) call(n *ast.CallExpr) Term {
 		if a.Sort == "Slice" {
 			return Term{S: app("s-off", a.S), Sort: "Int", T: intT}
 		}
+	case "view":
+		// view(s): the contents of slice s as a sequence, index 0 = s[0]
+		argN(1)
+		a := e.expr(n.Args[0])
+		if a.Sort == "Slice" && a.T != nil {
+			el := a.T.Underlying().(*types.Slice).Elem()
+			if v, ok := x.viewOf(e.st, a, el); ok {
+				return Term{S: v.S, Sort: v.Sort, T: types.NewArray(el, 0)}
+			}
+		}
+		e.stale("view() of a non-ground or non-slice value")
+	case "str":
+		// str(b): the Go conversion string(b) of a byte slice
+		argN(1)
+		a := e.expr(n.Args[0])
+		if a.Sort == "Slice" && a.T != nil {
+			return x.convFromSlice(e.st, a, types.Typ[types.String])
+		}
+		e.stale("str() of a non-slice")
 	case "alloc":
 		return e.st.alloc
 	case "tag":
